@@ -190,6 +190,14 @@ package dig
 //@ spec bytesField(n string) bool = n == "block_hash" || n == "tx_hash" || n == "tx_signer" || n == "tx_to" || n == "tx_input" || n == "tx_contract_address" || n == "log_addr" || n == "trace_action_from" || n == "trace_action_to"
 //@ spec refOK(cd coldef) bool = (len(cd.Input.Filter.Arg) == 0 && len(cd.Input.Filter.Ref.Integration) != 0 ==> bytesTyped(cd.Input.Type)) && (len(cd.BlockData.Filter.Arg) == 0 && len(cd.BlockData.Filter.Ref.Integration) != 0 ==> bytesField(cd.BlockData.Name))
 
+// C13: the topic-count gate compares with the number of inputs declared
+// indexed - every one of them, whatever its type (an indexed tuple, array or
+// string occupies one topic, the hash of its encoding).
+//@ spec rec cntIndexed(ins []Input, k int) int = k <= 0 ? 0 : cntIndexed(ins, k-1) + (ins[k-1].Indexed ? 1 : 0)
+//@ func (Event).numIndexed props=C13
+//@   ensures [counts-every-indexed-input] result == cntIndexed(e.Inputs, len(e.Inputs))
+//@   loop#0 invariant res == cntIndexed(e.Inputs, rangeindex + 1)
+
 //@ func (Integration).processLog props=C13,C12,C10,C11
 //@   requires lwc != nil && lwc.l != nil && lwc.b != nil && lwc.t != nil && ig.numIndexed >= 0 && ig.resultCache != nil
 //@   requires len((*ig.resultCache).singleton) == (*ig.resultCache).ncols && 0 <= (*ig.resultCache).ncols && (*ig.resultCache).ncols < 0x10000000000 && wfs((*ig.resultCache).t) && wfp((*ig.resultCache).t, (*ig.resultCache).ncols)
